@@ -1,0 +1,114 @@
+//! B+tree facade: a file wrapper that records the header and free-list
+//! (trunk) page writes of a `BPlusTree`, so that an external harness can
+//! reconstruct the page allocator's call sequence. All I/O is delegated to
+//! the crate's own `vfs::File` implementation for `std::fs::File`.
+
+use std::io::SeekFrom;
+use std::path::Path;
+use std::sync::{Arc, Mutex};
+
+use crate::bplustree::tree::{BPlusTree, BPlusTreeError};
+use crate::error::Result;
+use crate::vfs::File as VfsFile;
+use crate::Comparator;
+
+/// One recorded `write_at`: offset, length, first byte, and the full data
+/// when the write is the header page (offset 0) or a trunk page (type 2).
+#[derive(Debug, Clone)]
+pub struct WriteEvent {
+	pub offset: u64,
+	pub len: usize,
+	pub first: u8,
+	pub data: Option<Vec<u8>>,
+}
+
+/// Shared log of writes.
+pub type WriteLog = Arc<Mutex<Vec<WriteEvent>>>;
+
+/// `std::fs::File` plus a log of the writes issued through it.
+pub struct TraceFile {
+	inner: std::fs::File,
+	log: WriteLog,
+}
+
+impl VfsFile for TraceFile {
+	fn write(&mut self, buf: &[u8]) -> Result<usize> {
+		VfsFile::write(&mut self.inner, buf)
+	}
+
+	fn flush(&mut self) -> Result<()> {
+		VfsFile::flush(&mut self.inner)
+	}
+
+	fn close(&mut self) -> Result<()> {
+		VfsFile::close(&mut self.inner)
+	}
+
+	fn seek(&mut self, pos: SeekFrom) -> Result<u64> {
+		VfsFile::seek(&mut self.inner, pos)
+	}
+
+	fn read(&mut self, buf: &mut [u8]) -> Result<usize> {
+		VfsFile::read(&mut self.inner, buf)
+	}
+
+	fn read_all(&mut self, buf: &mut Vec<u8>) -> Result<usize> {
+		VfsFile::read_all(&mut self.inner, buf)
+	}
+
+	fn lock(&self) -> Result<()> {
+		VfsFile::lock(&self.inner)
+	}
+
+	fn unlock(&self) -> Result<()> {
+		VfsFile::unlock(&self.inner)
+	}
+
+	fn read_at(&self, offset: u64, buf: &mut [u8]) -> Result<usize> {
+		VfsFile::read_at(&self.inner, offset, buf)
+	}
+
+	fn write_at(&mut self, offset: u64, buf: &[u8]) -> Result<usize> {
+		let first = buf.first().copied().unwrap_or(0);
+		let keep = offset == 0 || first == 2;
+		self.log.lock().unwrap().push(WriteEvent {
+			offset,
+			len: buf.len(),
+			first,
+			data: if keep {
+				Some(buf.to_vec())
+			} else {
+				None
+			},
+		});
+		VfsFile::write_at(&mut self.inner, offset, buf)
+	}
+
+	fn sync(&self) -> Result<()> {
+		VfsFile::sync(&self.inner)
+	}
+
+	fn sync_data(&self) -> Result<()> {
+		VfsFile::sync_data(&self.inner)
+	}
+
+	fn size(&self) -> Result<u64> {
+		VfsFile::size(&self.inner)
+	}
+}
+
+/// Same as `BPlusTree::disk` (same open options), but through a `TraceFile`.
+pub fn open_traced<P: AsRef<Path>>(
+	path: P,
+	compare: Arc<dyn Comparator>,
+) -> std::result::Result<(BPlusTree<TraceFile>, WriteLog), BPlusTreeError> {
+	use std::fs::OpenOptions;
+	let inner = OpenOptions::new().read(true).write(true).create(true).truncate(false).open(path)?;
+	let log: WriteLog = Arc::new(Mutex::new(Vec::new()));
+	let file = TraceFile {
+		inner,
+		log: Arc::clone(&log),
+	};
+	let tree = BPlusTree::with_file(file, compare)?;
+	Ok((tree, log))
+}
